@@ -344,6 +344,56 @@ def io_oracle(r):
     return bad
 
 
+def h5_census(r):
+    """HDF5 runs: tie of the forced-close model (Refcount.forced_close, sub-engine "h5").  The harness prints after every
+    operation the number of open identifiers by kind (datatypes, datasets, attributes, groups) of the process and of the file
+    of every open handle.  For every successful close of handle c:  process census after = process census before - census of c's
+    file before + what the model leaves of it (nothing, by C17_forced_close_releases_every_kind).  Sessions that open a file
+    a second time while it is open are left out (known: fd:hdf5-same-file-opened-twice).  -> (closes compared, [(key, desc)])"""
+    def census(l):
+        for part in l.split(" | ")[1:]:
+            t = part.split()
+            if t and t[0] == "h5k":
+                g = [int(x) for x in t[1].split(",")]
+                loc = {}
+                for x in t[2:]:
+                    c, v = x.split("=")
+                    if v == "?":
+                        return None
+                    loc[c] = [int(y) for y in v.split(",")]
+                return g, loc
+        return None
+    il = [l for l in r["impl"] if not l.startswith("end ")]
+    rows, held, prev = [], {}, None
+    for op, l in zip(r["script"], il):
+        t = op.split()
+        if l.startswith("cycle "):
+            prev = None
+            continue
+        cur = census(l)
+        if t[0] == "open" and l.startswith("open ok"):
+            if t[1] in held.values():
+                break
+            held[l.split()[2]] = t[1]
+        if t[0] == "close" and l.startswith("close 0 ") and prev and cur and t[1] in prev[1]:
+            rows.append((op, prev, cur, t[1], l))
+            held.pop(t[1], None)
+        prev = cur
+    if not rows:
+        return 0, []
+    ml = vlib.run_model("c17", "".join("close %d %d %d %d\n" % tuple(pv[1][c]) for _, pv, _, c, _ in rows), args=["h5"])
+    bad = []
+    for (op, pv, cu, c, l), m in zip(rows, ml):
+        left = [int(x) for x in m.split()]
+        want = [pv[0][k] - pv[1][c][k] + left[k] for k in range(4)]
+        if want != cu[0] or left[4] != 1:
+            bad.append((None, {"problem": "HDF5 identifiers by kind after a close differ from the forced-close model", "op": op,
+                               "kinds": "datatypes,datasets,attributes,groups", "file_before": pv[1][c], "process_before": pv[0],
+                               "process_after": cu[0], "model_process_after": want, "after": l}))
+            break
+    return len(rows), bad
+
+
 def heap_slope(lines, warm=1):
     # warm-up: static buffers are allocated during the first repetition(s); with >= 12 cycles cycle 10 is the reference
     """heap bytes at the cycle markers -> (values, grows?)"""
@@ -839,7 +889,14 @@ def run(ck):
                                     "first_divergence": dv and {"line": dv[0], "model": dv[1], "impl": dv[2]}})
         ck.case(hashlib.sha1((r["world"] + "|".join(r["ops"]) + r["backend"]).encode()).hexdigest() if (feats or r["backend"] == "hdf5" and ">" in r["world"]) else None,
                 sample={"level": "cgio", "backend": r["backend"], "world": r["world"], "ops": r["ops"][:8]})
-        for key, desc in io_oracle(r):
+        verdicts = io_oracle(r)
+        if r["backend"] == "hdf5" and res["ok"] and r["outcome"] == "ok":
+            ncl, hb = h5_census(r)
+            stats["h5_closes_compared"] = stats.get("h5_closes_compared", 0) + ncl
+            if ncl:
+                ck.cov["traces_validated_against_impl"] += 1
+            verdicts = verdicts + hb
+        for key, desc in verdicts:
             rep = {"level": "cgio", "backend": r["backend"], "world": r["world"], "ops": r["ops"], "failure": desc,
                    "oracle": "sanitizer + descriptor/HDF5-id counts + handle tables + LeakSanitizer (no model involved)"}
             note(key, desc, rep)
